@@ -1,6 +1,6 @@
 #!/bin/bash
 # usage: tools/run_all.sh [ids...]   runs the quick checks (all 19 by default) in parallel; prints one line per check
-cd /verif
+cd "$(dirname "$0")/.."
 IDS="$@"; [ -z "$IDS" ] && IDS="C11 C01 C02 C03 C04 C05 C06 C07 C08 C09 C10 C12 C13 C14 C15 C16 C17 C18 C19"
 OUT=$(mktemp -d)
 # the first one builds the shared instance stage; the rest run in parallel
